@@ -183,14 +183,14 @@ Definition gov_item (seqs : list Z) (k v : bytes) : option (option goventry) :=
   match last_slash k with
   | None => None
   | Some si =>
-    match parse_uint 64 (skipn (S si) k) with
+    match parse_uint db_gov_seq_bits (skipn (S si) k) with
     | None => None
     | Some q =>
       if negb (zmem q seqs) then Some None else
       match last_slash (firstn si k) with
       | None => None
       | Some ti =>
-        match parse_uint 16 (skipn (S ti) (firstn si k)) with
+        match parse_uint db_gov_tc_bits (skipn (S ti) (firstn si k)) with
         | None => None
         | Some t => Some (Some {| g_tc := t; g_seq := q; g_bytes := v |})
         end
